@@ -52,6 +52,11 @@ def fields():
             return None
         return ('ext', ext(v, b'\1\2\3'), 'ok 0 (Unknown %d %s)' % (v, S(4, 3)))
     f.append(('extension_type', 65536, ext_unknown))
+    for d in ('ext_client', 'ext_server'):
+        def ext_unknown_d(v, d=d):
+            r = ext_unknown(v)
+            return None if r is None else (d, r[1], r[2])
+        f.append(('extension_type/' + d, 65536, ext_unknown_d))
     f.append(('named_group_ext', 65536, lambda v: ('ext', ext(10, b'\0\4' + u16(v) + u16(65535 - v)), 'ok 0 (EllipticCurves [%d %d])' % (v, 65535 - v))))
     f.append(('named_group_ec_params', 65536, lambda v: ('ec_params', b'\3' + u16(v), 'ok 0 (ECParams 3 (NamedGroup %d))' % v)))
     f.append(('named_groups_list', 65536, lambda v: ('named_groups', u16(v), 'ok 0 [%d]' % v)))
@@ -77,7 +82,7 @@ def run(ctx):
     ok = common.lean_step(ctx, MODULES)
     cases = []
     for name, dom, build in fields():
-        if dom == 256 or ctx.thorough:
+        if dom == 256 or ctx.thorough or name.startswith('extension_type'):
             vals = range(dom)
         else:
             vals = sorted(set(range(0, dom, 13)) | set(range(0, 600)) | {dom - 1, dom - 2, 0x7f12, 0x0a0a, 0xfafa, 0xfe00, 0xfeff, 0xff01, 0xffce})
